@@ -138,12 +138,16 @@ func inject(s string) []injected {
 			add("quoted-keyword", string(rs[:o])+"\""+t.Text+"\""+rest, t.Line, t.Col)
 			add("quoted-keyword-multiline", string(rs[:o])+"\""+t.Text+"\n é\""+rest, t.Line, t.Col)
 			add("quoted-keyword-multiline", string(rs[:o])+"'"+t.Text+"\n\n'"+rest, t.Line, t.Col)
+			// ... written in pieces joined by +, one piece per line: still the first opening quote
+			add("quoted-keyword-concatenated", string(rs[:o])+"\""+t.Text+"\" +\n  'x' + \"y\""+rest, t.Line, t.Col)
+			add("quoted-keyword-concatenated", string(rs[:o])+"'"+t.Text+"'+\"z\""+rest, t.Line, t.Col)
 		}
 		// 3b. a (multi-line) quoted string where ';' or '{' is expected: after "keyword argument"
 		if t.Kind == 2 && ti >= 2 && (toks[ti-1].Kind == 0 || toks[ti-1].Kind == 1) && toks[ti-2].Kind == 0 && (ti-2 == 0 || toks[ti-3].Kind >= 2) {
 			// the inserted string stands right where the ';' stood, separated by a blank
 			add("string-instead-of-terminator", string(rs[:o])+" \"z\n z\""+string(rs[o:]), t.Line, t.Col+1)
 			add("string-instead-of-terminator", string(rs[:o])+" 'z\n\tz' "+string(rs[o:]), t.Line, t.Col+1)
+			add("concatenated-string-instead-of-terminator", string(rs[:o])+" \"z\" +\n 'y'\n+ \"x\" "+string(rs[o:]), t.Line, t.Col+1)
 		}
 		if t.Kind == 1 && t.Double {
 			// 4. invalid escape right after the opening quote
